@@ -19,6 +19,9 @@ MAXB = 3
 MAXD = 2
 KINDS = (B.NS, B.EXT, B.CLS, B.CLSVAR, B.TDCLS)
 TWIN = False  # reachability twin: final assertion False
+# declaration kinds inside / around the blocks: None = plain int declarations, k = rotation k of the payload tables of vf/blocks.py
+# (every callback kind of the protocol appears inside some skipped block)
+PAYLOADS = [None, 0, 3, 6, 9, 12, 15]
 
 
 def decide(ch, root, blocks):
@@ -90,8 +93,10 @@ def h_skip(c0: int, c1: int, c2: int, c3: int, c4: int, c5: int, c6: int, c7: in
     post: _
     """
     with NoTracing():
+        B.ANON_PAYLOAD_OK = False
         ch = Chooser([c0, c1, c2, c3, c4, c5, c6, c7, c8, c9, c10, c11])
-        root, blocks = B.build(ch, MAXB, MAXD, KINDS)
+        payload = PAYLOADS[ch.pick(len(PAYLOADS))]
+        root, blocks = B.build(ch, MAXB, MAXD, KINDS, payload=payload)
         skipped, decisions = decide(ch, root, blocks)
         text = "\n".join(B.render(root)) + "\n"
         bad = judge(text, root, skipped, decisions)
@@ -102,8 +107,10 @@ def h_skip(c0: int, c1: int, c2: int, c3: int, c4: int, c5: int, c6: int, c7: in
 
 def replay(args):
     """concrete re-run of one counterexample: returns (description or None, text)"""
+    B.ANON_PAYLOAD_OK = False
     ch = Chooser(list(args), prefix=())
-    root, blocks = B.build(ch, MAXB, MAXD, KINDS)
+    payload = PAYLOADS[ch.pick(len(PAYLOADS))]
+    root, blocks = B.build(ch, MAXB, MAXD, KINDS, payload=payload)
     skipped, decisions = decide(ch, root, blocks)
     text = "\n".join(B.render(root)) + "\n"
     return judge(text, root, skipped, decisions), text, sorted(skipped), decisions
@@ -114,9 +121,9 @@ def run(tier):
     from ..common import Check
 
     ck = Check("C05", tier)
-    maxb, maxd = (3, 2) if tier == "quick" else (4, 3)
+    maxb, maxd = (2, 2) if tier == "quick" else (3, 3)
     globs = dict(MAXB=maxb, MAXD=maxd)
-    ck.bounds = dict(max_blocks=maxb, max_depth=maxd, kinds=[B.KIND_NAMES[k] for k in KINDS],
+    ck.bounds = dict(max_blocks=maxb, max_depth=maxd, kinds=[B.KIND_NAMES[k] for k in KINDS], payload_rotations=PAYLOADS,
                      decisions_per_start=["None", "True", "False"])
     ck.encode(CxxParser._setup_state, CxxParser._pop_state, CxxParser._on_block_end, CxxParser._parse_namespace,
               CxxParser._parse_extern, CxxParser._parse_class_decl, CxxParser._finish_class_decl,
@@ -127,38 +134,45 @@ def run(tier):
               "the parser itself runs concretely (NoTracing) once the choices of a path are fixed: the solver contributes "
               "the exhaustive, feasibility-checked exploration of the (tree, decision) space and the completeness verdict")
     ck.out_of_scope(f"trees with more than {maxb} blocks or deeper than {maxd}", "callbacks returning other falsy values")
-    shards = [(a, b) for a in range(len(KINDS)) for b in range(len(KINDS) + 1)] + [(len(KINDS),)]
+    shards = [(p, a, b) for p in range(len(PAYLOADS)) for a in range(len(KINDS)) for b in range(len(KINDS) + 1)] + [(p, len(KINDS)) for p in range(len(PAYLOADS))]
     timeout = 120 if tier == "quick" else 1500
     pool = chrun.make_pool()
     try:
-        tw = chrun.run(__name__, "h_skip", [(0, len(KINDS))], timeout=60, globs=dict(globs, TWIN=True), pool=pool)
+        tw = chrun.run(__name__, "h_skip", [(0, 0, len(KINDS))], timeout=60, globs=dict(globs, TWIN=True), pool=pool)
         chrun.record(ck, tw, "reachability twin (assert False)", expect="refuted")
         res = chrun.run(__name__, "h_skip", shards, timeout=timeout, globs=globs, pool=pool)
+        # larger trees with plain declarations only (payload None = first rotation)
+        big = dict(MAXB=maxb + 1, MAXD=maxd)
+        shards2 = [(0, a, b) for a in range(len(KINDS)) for b in range(len(KINDS) + 1)] + [(0, len(KINDS))]
+        res2 = chrun.run(__name__, "h_skip", shards2, timeout=timeout, globs=big, pool=pool)
     finally:
         pool.shutdown()
-    v = chrun.record(ck, res, "skip pruning over all trees x decisions", bound=f"blocks<={maxb} depth<={maxd}")
+    v = chrun.record(ck, res, "skip pruning over all trees x decisions x payload rotations", bound=f"blocks<={maxb} depth<={maxd}, {len(PAYLOADS)} rotations")
+    chrun.record(ck, res2, "skip pruning over larger trees (plain declarations)", bound=f"blocks<={maxb + 1} depth<={maxd}")
     global MAXB, MAXD
-    MAXB, MAXD = maxb, maxd
-    for shard, args, kw, msg in res.counterexamples[:5]:
-        bad, text, skipped, decisions = replay(list(shard) + [a for a in args])
-        body = (
-            "from vf.props import c05\n"
-            f"c05.MAXB, c05.MAXD = {maxb}, {maxd}\n"
-            f"bad, text, skipped, decisions = c05.replay({list(shard) + list(args)!r})\n"
-            "print(text); print('skipped blocks', skipped, 'decisions', decisions); print('->', bad)\n"
-            "sys.exit(1 if bad else 0)\n"
-        )
-        path = ck.write_replay(body)
-        ok, out = ck.run_replay(path)
-        ck.traces += 1
-        if ok:
-            ck.violation(f"skip pruning: {bad}", path, key=dict(kind="skip"))
-        else:
-            from ..common import HarnessError
+    for (mb, md), r_ in (((maxb + 1, maxd), res2), ((maxb, maxd), res)):
+      MAXB, MAXD = mb, md
+      maxb_, maxd_ = mb, md
+      for shard, args, kw, msg in r_.counterexamples[:5]:
+          bad, text, skipped, decisions = replay(list(shard) + [a for a in args])
+          body = (
+              "from vf.props import c05\n"
+              f"c05.MAXB, c05.MAXD = {maxb_}, {maxd_}\n"
+              f"bad, text, skipped, decisions = c05.replay({list(shard) + list(args)!r})\n"
+              "print(text); print('skipped blocks', skipped, 'decisions', decisions); print('->', bad)\n"
+              "sys.exit(1 if bad else 0)\n"
+          )
+          path = ck.write_replay(body)
+          ok, out = ck.run_replay(path)
+          ck.traces += 1
+          if ok:
+              ck.violation(f"skip pruning: {bad}", path, key=dict(kind="skip"))
+          else:
+              from ..common import HarnessError
 
-            raise HarnessError(f"counterexample did not reproduce: {msg}\n{out}")
+              raise HarnessError(f"counterexample did not reproduce: {msg}\n{out}")
     # samples: a few concrete (tree, decisions) pairs actually run
-    for pre in [(0, 5, 2), (2, 0, 5, 5, 0, 2), (4, 5, 5, 2), (3, 2, 5, 0)]:
+    for pre in [(0, 0, 5, 2), (1, 2, 0, 5, 5, 0, 2), (3, 4, 5, 5, 2), (5, 3, 2, 5, 0)]:
         try:
             bad, text, skipped, decisions = replay(list(pre) + [9] * 12)
             ck.sample(dict(source=text, skipped_blocks=skipped, decisions=[str(d) for d in decisions], verdict=bad or "ok"))
